@@ -848,6 +848,12 @@ func (g *Gen) genItem(depth int) *Ast {
 							g.tag("switch:negative-case")
 						}
 						c.Cond.L = fmt.Sprint(v)
+						if i+1 < n && r.Chance(18) {
+							// a case that cannot be compared with a number at all: it does not match,
+							// and the cases behind it are still tried
+							c.Cond.L, c.Cond.LQuote = []string{"abc", "n/a", "x1"}[r.Intn(3)], `"`
+							g.tag("switch:incomparable-case")
+						}
 					default:
 						c.Cond.L = []string{litText(o.S), "abc", "a"}[r.Intn(3)]
 						if c.Cond.L == "" {
@@ -935,6 +941,21 @@ func (g *Gen) genItem(depth int) *Ast {
 		}
 		g.tag("print:past-loop-var")
 		return &Ast{K: "print", Path: g.past[r.Intn(len(g.past))]}
+	case "okself":
+		// a ctx tag whose source expression reads the very name it uses as its flag: the value
+		// the flag had before the tag
+		okn := fmt.Sprintf("ok%d", r.Intn(2))
+		o, ok := g.pickOperand("string", "int", "bytes", "float")
+		if !ok {
+			return &Ast{K: "text", Text: g.marker()}
+		}
+		first := &Ast{K: "ctx", CtxVar: fmt.Sprintf("c%d", r.Intn(3)), CtxSrc: o.Path, CtxOK: okn}
+		second := &Ast{K: "ctx", CtxVar: fmt.Sprintf("c%d", r.Intn(3)), CtxSrc: okn, CtxOK: okn}
+		if g.p.Mods && r.Bool() {
+			second.CtxMods = []AMod{{Name: "ifThenElse", Args: []AArg{{Lit: true, Text: "yes", Quote: `"`}, {Lit: true, Text: "no", Quote: `"`}}}}
+		}
+		g.tag("okself")
+		return &Ast{K: "seq", Body: []*Ast{first, second, {K: "print", Path: second.CtxVar}, {K: "text", Text: g.marker()}, {K: "print", Path: okn}}}
 	case "qempty":
 		// a quoting letter or modifier on a value that is present but empty, right after a
 		// directive that left text in the engine's modifier buffer
@@ -1496,6 +1517,11 @@ func (g *Gen) genCtx() *Ast {
 	}
 	if r.Chance(30) || (g.p.OKFlags && r.Chance(50)) {
 		a.CtxOK = fmt.Sprintf("ok%d", r.Intn(2))
+		if g.p.OKFlags && !a.CtxLit && r.Chance(12) {
+			// the source expression reads the very name the tag uses as its flag: the old value
+			a.CtxSrc, a.CtxMods = a.CtxOK, nil
+			g.tag("ctx:ok:source-is-flag")
+		}
 		if g.p.OKFlags && !a.CtxLit && r.Chance(35) {
 			// an absent or empty source: the flag must be written as false
 			a.CtxSrc = []string{"nosuch.Field", "user.Nope", "absent"}[r.Intn(3)]
